@@ -79,6 +79,16 @@ def gen_case(rng, tier):
             op["seed"] = rng.randrange(10 ** 6)
             op["n_jobs"] = rng.choice((None, None, 2, 3))
         ops.append(op)
+    # the user re-assigns the imager's weight / kernel (function and parameters) on the live object, as the
+    # documentation's notebook does; every later call of the plan is held to the new configuration
+    if rng.random() < 0.3:
+        upd = {}
+        what = rng.choice((["kernel"], ["weight"], ["kernel", "weight"]))
+        if "kernel" in what:
+            upd.update(kernel=rng.choice(ic.KERNELS), var=rng.choice((1.0, 0.05, 0.3, 4.0)) * (cfg.get("unit", 1.0) ** 2))
+        if "weight" in what:
+            upd.update(weight=rng.choice(ic.WEIGHTS))
+        ops.insert(rng.randrange(len(ops) + 1), {"op": "reassign", "what": what, "update": upd})
     # a second imager of the *same resolution* on a shifted / rescaled region, used in the same plan
     # (and therefore by the same reused workers)
     cfg2 = dict(cfg)
@@ -135,8 +145,18 @@ def run_case(case, sched):
         simparallel.uninstall()
 
 
-def _run(case, sched, world, cfg, dg_json):
-    im = ic.make_imager(cfg)
+def _builtin(name_or_fn, modname):
+    """The callable persim resolves a built-in name to (a user assigns functions, not names, on a live imager)."""
+    import sys
+    if callable(name_or_fn):
+        return name_or_fn
+    return getattr(sys.modules[modname], name_or_fn)
+
+
+def _run(case, sched, world, cfg, dg_json, im=None, ops=None, opi0=0):
+    if im is None:
+        im = ic.make_imager(cfg)
+    ops_list = case["ops"] if ops is None else ops
     res = tuple(im.resolution)
     D = [ic.arr(d) for d in dg_json]
     master = [d.copy() for d in D]
@@ -150,7 +170,7 @@ def _run(case, sched, world, cfg, dg_json):
     cfg2 = case["inputs"].get("cfg2")
     im2 = None
     base2 = None
-    if cfg2 is not None and any(o.get("imager") == 2 for o in case["ops"]):
+    if cfg2 is not None and any(o.get("imager") == 2 for o in ops_list):
         ic.check_config(cfg2)
         im2 = ic.make_imager(cfg2)
     evals = 0
@@ -203,9 +223,32 @@ def _run(case, sched, world, cfg, dg_json):
 
     if im2 is not None:
         base2 = [np.asarray(call("transform(single)", im2.transform, d, skew=True), float) for d in D]
-    for opi, op in enumerate(case["ops"]):
+    for opi_local, op in enumerate(ops_list):
+        opi = opi0 + opi_local
         kind = op.get("op")
         nj = op.get("n_jobs")
+        if kind == "reassign":
+            what, upd = op.get("what") or [], op.get("update") or {}
+            if not set(what) <= {"kernel", "weight"} or not what or not set(upd) <= {"kernel", "weight", "var"}:
+                raise InvalidCase("reassign")
+            cfgn = dict(cfg)
+            cfgn.update(upd)
+            ic.check_config(cfgn)
+            if "weight" in what:
+                w_, wp_ = ic.weight_of(cfgn)
+                im.weight = _builtin(w_, "persim.images_weights")
+                im.weight_params = wp_
+            if "kernel" in what:
+                k_, kp_ = ic.kernel_of(cfgn)
+                im.kernel = _builtin(k_, "persim.images_kernels")
+                im.kernel_params = kp_
+            sched.note("op%d reassign %s -> %s" % (opi, what, json.dumps(upd, sort_keys=True)))
+            # everything after the re-assignment is a plan of its own for the same live object
+            tail = _run(case, sched, world, cfgn, dg_json, im=im, ops=ops_list[opi_local + 1:], opi0=opi + 1)
+            tail["evals"] += evals
+            tail["probes"]["plans_with_reassigned_weight_or_kernel"] = 1
+            tail["nontrivial"] = tail["nontrivial"] or (sum(1 for d in D if len(d)) >= 2 and par_calls >= 1)
+            return tail
         use2 = op.get("imager") == 2 and im2 is not None and kind == "collection"
         imx, basex = (im2, base2) if use2 else (im, base)
         resx = tuple(imx.resolution)
